@@ -286,11 +286,11 @@ def interpret_prim(text):
     return sched, counts, out
 
 
-PRIM_CHARS = '!@^%{\nxM~|'      # characters a `prim` document recategorises; \\, the letters of "catcode", z, digits, = and the blank keep their default codes
+PRIM_CHARS = '!@^%{\nxM~|\u03bb\u20ac\u4e2d'      # characters a `prim` document recategorises; \\, the letters of "catcode", z, digits, = and the blank keep their default codes
 
 
 def gen_prim(rng):
-    alpha = '!!@^^%{\n\nxM~| ab\\'
+    alpha = '!!@^^%{\n\nxM~| ab\\\u03bb\u03bb\u20ac\u4e2d'
     text = ''
     for _ in range(rng.randint(1, 4)):
         text += ''.join(rng.choice(alpha) for _ in range(rng.randint(0, 8)))
@@ -321,7 +321,9 @@ def strip_prim(canon_s, sched, counts):
 
 ALPHA13 = ['\\', '{', '%', '^', ' ', '\n', 'a', '1', '@', '\x00', '\r', 'M', '~']
 TABLES4 = [['D'], ['D', '64=11'], ['V'], ['D', '49=0', '97=14', '13=5', '77=7']]
-ADV = list('\\\\{}$&#^^^__~%%  \t\n\n\r\x00ab cdparM@?1290[]`\'"-<>|/') + ['é', 'ß', '中', '\U0001d54f', '\x7f', '\x1e', '\x1f', '^^M', '^^@', '^^?', '^^', '\\par', '\\ ', '\\\n', '  ', '\n\n']
+ADV = list('\\\\{}$&#^^^__~%%  \t\n\n\r\x00ab cdparM@?1290[]`\'"-<>|/') + ['é', 'ß', '中', '\U0001d54f', '\x7f', '\x1e', '\x1f', '^^M', '^^@', '^^?', '^^', '\\par', '\\ ', '\\\n', '  ', '\n\n',
+       # characters that are not stable under Unicode normalisation / case folding: a token holds the character it was made from
+       '\u212a', '\u2126', '\u212b', '\u0958', 'e\u0301', '\ufb01', '\u1e9e', '\u0130', '\u03bb', '\u20ac', '\U0001f600']
 
 
 def enc(s):
@@ -339,7 +341,8 @@ def rand_table(rng):
     if r < 0.5: return ['V']
     ops = ['D'] if rng.random() < 0.85 else ['V']
     for _ in range(rng.randint(1, 6)):
-        c = rng.choice(['\\', '{', '}', '$', '%', '^', '_', ' ', '\n', '\r', 'a', 'b', 'M', '@', '1', '!', '|', '~', '\x00', '\t', 'é', '/'])
+        c = rng.choice(['\\', '{', '}', '$', '%', '^', '_', ' ', '\n', '\r', 'a', 'b', 'M', '@', '1', '!', '|', '~', '\x00', '\t', 'é', '/',
+                        '\u03bb', '\u20ac', '\u4e2d', '\u212a', '\U0001f600'])     # assignments are not limited to 8-bit characters
         ops.append('%d=%d' % (ord(c), rng.randint(0, 15)))
     return ops
 
@@ -367,12 +370,12 @@ def generate(ctx):
     for _ in range(3000 if ctx.tier == 'quick' else 60000):
         segs = []
         for _ in range(rng.randint(1, 4)):
-            c = rng.choice('!a\\%^ @{\n')
+            c = rng.choice('!a\\%^ @{\n\u03bb')
             ops = ['%d=%d' % (ord(c), rng.randint(0, 15)) for _ in range(rng.randint(0, 2))]
             if rng.random() < 0.1:
                 ops.insert(0, rng.choice(['D', 'V']))
             segs.append((ops, rng.randint(0, 4)))
-        alpha = '!!aa\\\\%^^ @@{\n\nxM'
+        alpha = '!!aa\\\\%^^ @@{\n\nxM\u03bb\u03bb'
         s_ = ''.join(rng.choice(alpha) for _ in range(rng.randint(0, 14)))
         yield Case('dyn', ' ; '.join(' '.join(o) + ' ; %d' % k_ for o, k_ in segs) + ' | ' + enc(s_), None)
     # the same, with the assignments made by the \\catcode primitive inside the document (all 16 codes)
